@@ -127,6 +127,8 @@ _NOT_CHILD = {}      # id of Not(x) -> x, for terms built through the memo
 
 import os as _os
 _TWIN = _os.environ.get('VERIF_TWIN') or None
+_DUMP = _os.environ.get('VERIF_DUMP_SMT') or None
+_DUMP_EVERY = int(_os.environ.get('VERIF_DUMP_EVERY', '50'))
 
 
 def _crc(e):
@@ -410,6 +412,8 @@ class Engine:
             return True
         self.stats.validity_queries += 1
         r = self._check(M.op1('not', e))
+        if _DUMP and self.stats.validity_queries % _DUMP_EVERY == 1:
+            self._dump_query(name, M.op1('not', e), r)
         if r == z3.unsat:
             self.stats.discharged += 1
             return True
@@ -421,6 +425,21 @@ class Engine:
         if self._check() != z3.sat:
             raise PathEnd()
         return False
+
+    def _dump_query(self, name, neg, verdict):
+        """Write PC and the negated obligation as SMT-LIB2 (for diffing z3's verdict with cvc5)."""
+        import os
+        d = _DUMP
+        os.makedirs(d, exist_ok=True)
+        n = len(os.listdir(d))
+        if n >= 400:
+            return
+        s2 = z3.Solver()
+        s2.add(*self.solver.assertions())
+        s2.add(neg)
+        with open(os.path.join(d, 'q%05d_%d_%s.smt2' % (n, os.getpid(), str(verdict))), 'w') as f:
+            f.write('; obligation %s, z3 verdict %s\n(set-logic ALL)\n' % (name, verdict))
+            f.write(s2.to_smt2())
 
     def holds(self, cond):
         """Is cond valid under the path condition?  Nothing is recorded."""
